@@ -809,7 +809,9 @@ def snapshot_order(ctx):
 def cardinality_over_sets(ctx):
     for b in file_state_eq_bodies(ctx):
         lens = [(bb, t) for bb, t in b.calls() if callee_base(t).endswith("::len")]
-        ctx.need(lens, "len() calls in the file-state comparison")
+        if not lens:
+            ctx.ok(f"{short(b.name)}/no-cardinality-test", [b.loc()], "no cardinality comparison at all (its absence is C02.FS-EQ's business, it cannot cause spurious rebuilds)")
+            continue
         cmp_lens = []
         for blk in b.normal_blocks():
             for st in blk["stmts"]:
@@ -821,7 +823,9 @@ def cardinality_over_sets(ctx):
                                 for y in side:
                                     if y[0] == "call" and y[1].endswith("::len"):
                                         cmp_lens.append(y[3])
-        ctx.need(len(cmp_lens) >= 2, "the two len() operands of the cardinality comparison")
+        if len(cmp_lens) < 2:
+            ctx.ok(f"{short(b.name)}/no-cardinality-test", [b.loc()], "no cardinality comparison between two collections")
+            continue
         bad = [t for t in cmp_lens if not re.search(r"(HashSet|HashMap|BTreeSet|BTreeMap)::<", callee_decl(t))]
         ctx.check(not bad, f"{short(b.name)}/len-of-sets", [b.loc()], "the cardinality comparison counts a non-deduplicated collection (" + ", ".join(callee_decl(t)[:60] for t in bad) + "): overlapping resources make the counts differ for ever and the target is rebuilt on every run")
 
